@@ -19,7 +19,8 @@ impl PanicInfo {
     }
     /// did the panic originate in the simulator's own code (not in /repo, std or a dependency)?
     pub fn is_harness(&self) -> bool {
-        self.msg.starts_with("harness:") || !(self.loc.starts_with("/repo/") || self.loc.contains("/.cargo/") || self.loc.contains("/rustc/") || self.loc.contains("/rustlib/"))
+        // (the simulator crate is compiled with relative paths, every dependency with absolute ones)
+        self.msg.starts_with("harness:") || self.loc.starts_with("src/")
     }
     pub fn file(&self) -> String {
         self.loc.split(':').next().unwrap_or("").rsplit("/src/").next().unwrap_or("").to_string()
